@@ -23,11 +23,19 @@ E == TraceLog[l]
 IsEvent(name) == l <= Len(TraceLog) /\ E.ev = name /\ l' = l + 1
 Idle(g) == pc[g] \in {"idle", "done", "noclients"}
 
-TraceInit == Init /\ l = 1 /\ removing = {}
+\* the recorded executions start with an LBClient whose lazy init has already run
+TraceInit ==
+  /\ l = 1 /\ removing = {}
+  /\ members = InitMembers /\ inited = TRUE /\ ever = Range(InitMembers)
+  /\ ext = [c \in Clients |-> 0]
+  /\ inflight = [c \in Clients |-> 0] /\ penalty = [c \in Clients |-> 0]
+  /\ total = [c \in Clients |-> 0] /\ timers = [c \in Clients |-> 0]
+  /\ pc = [k \in Calls |-> "idle"] /\ snap = [k \in Calls |-> << >>]
+  /\ chosen = [k \in Calls |-> 0] /\ started = 0
 
 TReset ==
   /\ IsEvent("init")
-  /\ members' = E.members /\ ever' = Range(E.members)
+  /\ members' = E.members /\ inited' = TRUE /\ ever' = Range(E.members)
   /\ ext' = [c \in Clients |-> 0]
   /\ inflight' = [c \in Clients |-> 0] /\ penalty' = [c \in Clients |-> 0]
   /\ total' = [c \in Clients |-> 0] /\ timers' = [c \in Clients |-> 0]
@@ -45,7 +53,7 @@ TRead ==
      /\ pc' = [pc EXCEPT ![g] = "reading"]
      /\ chosen' = [chosen EXCEPT ![g] = 0]
      /\ started' = IF pc[g] = "reading" THEN started ELSE started + 1
-  /\ UNCHANGED <<members, ever, ext, inflight, penalty, total, timers, removing>>
+  /\ UNCHANGED <<inited, members, ever, ext, inflight, penalty, total, timers, removing>>
 
 TChoose ==
   /\ IsEvent("lb.choose")
@@ -53,7 +61,7 @@ TChoose ==
   /\ \E i \in Minimal(snap[E.g]) : snap[E.g][i] = [c |-> E.c, n |-> E.a, t |-> E.b]
   /\ chosen' = [chosen EXCEPT ![E.g] = E.c]
   /\ pc' = [pc EXCEPT ![E.g] = "chosen"]
-  /\ UNCHANGED <<members, ever, ext, inflight, penalty, total, timers, snap, started, removing>>
+  /\ UNCHANGED <<inited, members, ever, ext, inflight, penalty, total, timers, snap, started, removing>>
 
 TNoClients ==
   /\ IsEvent("lb.noclients") /\ removing = {}
@@ -74,7 +82,7 @@ TInc ==
   /\ IF E.a > MaxPenalty
        THEN pc' = [pc EXCEPT ![E.g] = "undo"] /\ UNCHANGED timers
        ELSE pc' = [pc EXCEPT ![E.g] = "done"] /\ timers' = [timers EXCEPT ![E.c] = @ + 1]
-  /\ UNCHANGED <<members, ever, ext, inflight, total, snap, chosen, started, removing>>
+  /\ UNCHANGED <<inited, members, ever, ext, inflight, total, snap, chosen, started, removing>>
 
 TDec ==
   /\ IsEvent("lb.dec")
@@ -93,7 +101,7 @@ TRemoved ==
   /\ members' = SelectSeq(members, LAMBDA c : c \notin removing)
   /\ Len(members') = E.a
   /\ removing' = {}
-  /\ UNCHANGED <<ever, ext, inflight, penalty, total, timers, pc, snap, chosen, started>>
+  /\ UNCHANGED <<inited, ever, ext, inflight, penalty, total, timers, pc, snap, chosen, started>>
 
 TraceNext == \/ TReset \/ TRead \/ TChoose \/ TNoClients \/ TBegin \/ TEnd \/ TTotal \/ TInc \/ TDec
              \/ TAdd \/ TRm \/ TRemoved
